@@ -6,7 +6,8 @@ run the demo without (must exit 0) and with the change (must exit non-zero). Kee
 usage: confirm_seeds.py [Cxx ...]
 """
 import json, os, shutil, subprocess, sys, glob, concurrent.futures as cf
-OUT = "/tmp/seed/out"
+OUT = os.environ.get("SEED_OUT", "/tmp/seed/out")
+KOFF = int(os.environ.get("SEED_KOFF", "0"))
 DEST = "/verif/seeded"
 
 def sh(cmd, cwd=None, timeout=1500):
@@ -14,7 +15,7 @@ def sh(cmd, cwd=None, timeout=1500):
     return r.returncode, (r.stdout + r.stderr)
 
 def confirm(pid, k):
-    sid = f"{pid}-{k}"
+    sid = f"{pid}-{k + KOFF}"
     src = f"{OUT}/{pid}"
     patch, demo, meta = f"{src}/patch{k}.diff", f"{src}/demo{k}.py", f"{src}/meta{k}.json"
     if not (os.path.exists(patch) and os.path.exists(demo)):
